@@ -210,6 +210,13 @@ def build(case, d):
                     if k in args:
                         args[k] = objs(args[k])
             prog.add_command(cls, c["result"], args)
+        if case["rseed"] % 6 == 1 and len(case["commands"]) >= 2 and case["builder"] == "api":
+            # a command replaced the documented way: removed (del program.commands[name]) and added again under its name - it
+            # now stands last, in the program and in what is written
+            victim = case["commands"][case["rseed"] % (len(case["commands"]) - 1)]["result"]
+            old_cmd = prog.commands[victim]
+            del prog.commands[victim]
+            prog.add_command(type(old_cmd), victim, {a.name: a.value for a in old_cmd.arguments})
         return prog, libs
     model = case["model"]
     models.write_table(model["table"], d)
